@@ -66,7 +66,7 @@ def mv(m, v):
     return [sum(m[i][k] * v[k] for k in range(3)) for i in range(3)]
 
 
-def gen_structure(rng, name=None, natoms=None):
+def gen_structure(rng, name=None, natoms=None, force_shared=False, force_mode=None):
     name = name or rng.choice(list(sg.TABLE))
     n, symms = sg.TABLE[name]
     cell = gen_cell(rng, SYSTEM[name])
@@ -79,7 +79,7 @@ def gen_structure(rng, name=None, natoms=None):
     # with some probability all fragments sit near the same symmetry axis (at different heights along it), so that
     # several fragments need the same operator and lattice translation
     shared = None
-    if rng.random() < 0.3:
+    if rng.random() < 0.3 or force_shared:
         ax = rng.randrange(3)
         fixed = [rng.choice([0.0, 0.25, 0.5]) for _ in range(3)]
         shared = (ax, fixed)
@@ -88,6 +88,8 @@ def gen_structure(rng, name=None, natoms=None):
     while len(atoms) < natoms:
         # a new molecule: seed near a special position or at a general one
         mode = rng.choice(['general', 'general', 'near_centre', 'on_centre', 'near_axis', 'on_quarter', 'on_quarter'])
+        if force_mode and not atoms:
+            mode = force_mode
         if shared is not None:
             mode = 'shared_axis'
         if mode == 'general':
